@@ -709,6 +709,35 @@ def wipeout_spec(draw):
 
 
 @st.composite
+def zero_mark_spec(draw):
+    """a position that is held while its price is quoted at exactly zero for two or more dates (a suspended name marked at nothing) and
+    recovers afterwards: it is still a position - its value, its parent's value and the weights come back with the price"""
+    lead, z, tail_n = draw(st.integers(1, 2)), draw(st.integers(2, 3)), draw(st.integers(1, 3))
+    n = lead + z + tail_n
+    ds = draw(gen.dates(n, n, kinds=("bday", "daily")))
+    pa = draw(gen.price_path(n))
+    for i in range(lead, lead + z):
+        pa[i] = 0.0
+    pb = draw(gen.price_path(n))
+    nested = draw(st.booleans())
+    tree = {"name": "root", "kind": "StrategyBase", "children": [{"name": "s1", "kind": "StrategyBase", "children": ["a", "b"]}, "b"]} if nested else {"name": "root", "kind": "StrategyBase", "children": ["a", "b"]}
+    spec = {"dates": ds, "prices": {"a": pa, "b": pb}, "tree": tree, "integer": draw(st.booleans()), "capital": 1e6, "fee": draw(gen.fee_spec(min(x for x in pa + pb if x), kinds=("none", "none", "prop")))}
+    paths = strategy_paths(tree)
+    holder = "root>s1" if nested else "root"
+    ops = ([["alloc_child", "root", "s1", 0.4]] if nested else []) + [["alloc_child", holder, "a", draw(st.sampled_from([0.1, 0.2]))]]
+    if draw(st.booleans()):
+        ops.append(["alloc_child", "root", "b", 0.1])
+    # through the quiet dates (nothing but the clock moves, or operations on the other ticker), then into the recovery
+    for _ in range(lead + z):
+        ops.append(["next"])
+        if draw(st.integers(0, 2)) == 0:
+            ops.append(["alloc_child", "root", "b", draw(st.sampled_from([0.05, -0.05]))])
+    spec["ops"] = ops + draw(st.lists(op_spec(paths, False), min_size=0, max_size=5))
+    spec["zero_marks"] = True
+    return spec
+
+
+@st.composite
 def exact_fee_spec(draw):
     """trades whose proceeds equal their commission exactly (a minimum ticket charge on a small residual lot: one unit sold at 10.0 under a
     flat fee of 10.0), so that the net cash movement of the trade is exactly zero while a fee is still due and has to be recorded"""
@@ -738,6 +767,8 @@ def history_spec(draw, min_ops=3, max_ops=25, max_dates=8, costs=True, allow_mul
         return draw(wipeout_spec())
     if k_ == 2 and costs:
         return draw(exact_fee_spec())
+    if k_ == 3:
+        return draw(zero_mark_spec())
     ds = draw(gen.dates(2, max_dates, kinds=("bday", "daily", "mixed", "intraday")))
     n = len(ds)
     nt = draw(st.integers(1, 4))
@@ -809,6 +840,8 @@ def history_labels(spec, run):
         labs.append("substrategy_value_exactly_zero")
     if spec.get("exact_fee"):
         labs.append("proceeds_equal_commission")
+    if spec.get("zero_marks"):
+        labs.append("held_through_zero_marks_and_recovery")
     if spec.get("bidoffer"):
         labs.append("spread")
     if spec["integer"]:
